@@ -385,6 +385,11 @@ send_early_response(RegP *p, ByteBuffer *hdrbuf, RPResponse code)
     const int rc = parse_header(&frame, hdrbuf->data, hdrbuf->used);
 
     if (rc >= 0) {
+        if (regp_is_request(&frame) == false) {
+            /* Only requests are answered: "Reponse or meta messages that
+             * exhibit a problem shall not be met with another reponse". */
+            return 0;
+        }
         if (code == RP_RESP_ERXOVERFLOW) {
             /* This response carries the largest supported message size. */
             return send_resp_32(p, &frame, code, trxbufsize(p), MSEM_8BIT);
